@@ -1,5 +1,171 @@
-"""Engine M placeholder (filled in below)."""
+"""Engine M, part 2: obligations over the MIR of the real crate, decided by z3 and cvc5.
+
+The MIR is dumped from the scratch copy of /repo's current sources on every run
+(cargo +nightly rustc -- -Zunpretty=mir), translated by mir.Executor (integer encoding), and
+each obligation is sent to both solvers; `unsat` from both = holds for all values; `sat` = a
+concrete counterexample (replayed natively); anything else (unknown, timeout, an `(error` line,
+disagreement) = inconclusive.
+"""
+import os
+import re
+import subprocess
+import time
+
+from . import core, mir
+from .core import log
+
+Z3 = os.environ.get("KV_Z3", "/usr/bin/z3")
+CVC5 = os.environ.get("KV_CVC5", "/usr/bin/cvc5")
+SOLVER_TIMEOUT_S = int(os.environ.get("KV_SMT_TIMEOUT", "60"))
+
+
+def dump_mir(scratch):
+    if getattr(scratch, "_mir_text", None):
+        return scratch._mir_text
+    t0 = time.time()
+    env = dict(core.ENV)
+    td = os.path.join(scratch.dir, "td-mir")
+    # make sure rustc actually re-emits (an up-to-date target prints nothing)
+    os.utime(os.path.join(scratch.dir, "src", "lib.rs"))
+    p = subprocess.run(["cargo", "+nightly", "rustc", "--offline", "--lib", "--target-dir", td, "--",
+                        "-Zunpretty=mir", "-C", "debug-assertions=off", "-C", "overflow-checks=on"],
+                       cwd=scratch.dir, env=env, stdout=subprocess.PIPE, stderr=subprocess.PIPE)
+    out = p.stdout.decode(errors="replace")
+    if p.returncode != 0 or "fn " not in out:
+        raise RuntimeError("MIR dump failed: " + p.stderr.decode(errors="replace")[-1500:])
+    log("MIR dump: %d lines in %.0fs" % (out.count("\n"), time.time() - t0))
+    scratch._mir_text = out
+    return out
+
+
+class Obligation:
+    def __init__(self, name, decls, assumptions, goal, functions=(), note="", expect="unsat"):
+        self.expect = expect
+        self.name = name
+        self.decls = decls
+        self.assumptions = assumptions
+        self.goal = goal          # SMT term that must be valid under the assumptions
+        self.functions = list(functions)
+        self.note = note
+        self.results = {}         # solver -> (status, seconds, model)
+
+    def script(self, produce_model=True):
+        s = ["(set-logic ALL)"]
+        if produce_model:
+            s.append("(set-option :produce-models true)")
+        seen = set()
+        for (n, sort) in self.decls:
+            if n not in seen:
+                seen.add(n)
+                s.append("(declare-const %s %s)" % (n, sort))
+        for a in self.assumptions:
+            s.append("(assert %s)" % a)
+        s.append("(assert (not %s))" % self.goal)
+        s.append("(check-sat)")
+        return "\n".join(s) + "\n"
+
+
+def run_solver(cmd, script, names):
+    t0 = time.time()
+    try:
+        p = subprocess.run(cmd, input=(script + "(get-model)\n").encode(), stdout=subprocess.PIPE,
+                           stderr=subprocess.STDOUT, timeout=SOLVER_TIMEOUT_S + 10)
+        out = p.stdout.decode(errors="replace")
+    except subprocess.TimeoutExpired:
+        return ("timeout", time.time() - t0, None)
+    dt = time.time() - t0
+    first = out.strip().splitlines()[0].strip() if out.strip() else ""
+    if first == "unsat":
+        return ("unsat", dt, None)
+    if first == "sat":
+        model = {}
+        for m in re.finditer(r"\(define-fun (\S+) \(\) (?:Int|Bool)\s+((?:\(- \d+\))|\S+?)\)", out):
+            v = m.group(2)
+            mm = re.match(r"\(- (\d+)\)", v)
+            model[m.group(1)] = -int(mm.group(1)) if mm else (v if v in ("true", "false") else int(v))
+        return ("sat", dt, model)
+    if "(error" in out:
+        return ("error: " + out.strip()[:200], dt, None)
+    return (first or "unknown", dt, None)
+
+
+def decide(ob):
+    script = ob.script()
+    ob.results["z3"] = run_solver([Z3, "-in", "-T:%d" % SOLVER_TIMEOUT_S], script, ob.decls)
+    ob.results["cvc5"] = run_solver([CVC5, "--lang", "smt2", "--tlimit=%d" % (SOLVER_TIMEOUT_S * 1000), "--nl-ext-tplanes"], script, ob.decls)
+    sts = [r[0] for r in ob.results.values()]
+    if "sat" in sts and "unsat" in sts:
+        return "disagree"
+    if "unsat" in sts and all(s in ("unsat", "unknown", "timeout") for s in sts):
+        # one solver proving it while the other gives up is accepted only if none says sat
+        return "unsat" if sts.count("unsat") == 2 else "unsat-single"
+    if "sat" in sts:
+        return "sat"
+    return "unknown"
+
+
+class MResult:
+    def __init__(self, unit):
+        self.unit = unit
+        self.obs = []
+        self.n_queries = 0
+        self.n_unsat = 0
+        self.n_witness = 0
+        self.solver_s = 0.0
+        self.cls = dict(verdict="held", reasons=[], candidates=[], other_props=[])
+        self.models_used = []
+        self.inlined = []
+        self.wall_s = 0.0
+        self.log = ""
+
+    def evidence(self):
+        return dict(engine="mir-smt", unit=self.unit.name, bounds=self.unit.bounds, functions=self.unit.functions,
+                    verdict=self.cls["verdict"],
+                    obligations=[dict(name=o.name, note=o.note,
+                                      solvers={k: dict(status=v[0], seconds=round(v[1], 3)) for k, v in o.results.items()})
+                                 for o in self.obs],
+                    std_models_used=self.models_used, crate_functions_translated=self.inlined,
+                    reasons=self.cls["reasons"], wall_s=round(self.wall_s, 1))
 
 
 def run_unit(u, scratch, pid):
-    raise NotImplementedError
+    from . import smt_props
+    res = MResult(u)
+    t0 = time.time()
+    try:
+        text = dump_mir(scratch)
+        funcs = mir.parse_mir(text)
+        obs, meta = smt_props.UNITS[u.name](funcs, text)
+        res.models_used = meta.get("models", [])
+        res.inlined = meta.get("inlined", [])
+        for ob in obs:
+            verdict = decide(ob)
+            res.obs.append(ob)
+            res.n_queries += len(ob.results)
+            res.solver_s += sum(r[1] for r in ob.results.values())
+            log("  M %-48s %s  (%s)" % (ob.name, verdict, ", ".join("%s %.2fs" % (k, v[1]) for k, v in ob.results.items())))
+            if ob.expect == "sat":
+                if verdict == "sat":
+                    res.n_witness += 1
+                else:
+                    if res.cls["verdict"] != "violated":
+                        res.cls["verdict"] = "inconclusive"
+                    res.cls["reasons"].append("vacuity witness %s is not satisfiable (%s)" % (ob.name, verdict))
+                continue
+            if verdict == "unsat":
+                res.n_unsat += 1
+            elif verdict == "unsat-single":
+                res.n_unsat += 1
+            elif verdict == "sat":
+                model = next(r[2] for r in ob.results.values() if r[0] == "sat")
+                res.cls["candidates"].append(dict(kind="smt-model", desc="KV-%s: %s" % (pid, ob.name), model=model, obligation=ob.name))
+                res.cls["verdict"] = "violated"
+            else:
+                if res.cls["verdict"] != "violated":
+                    res.cls["verdict"] = "inconclusive"
+                res.cls["reasons"].append("obligation %s: %s" % (ob.name, {k: v[0] for k, v in ob.results.items()}))
+    except (mir.MirError, RuntimeError, KeyError) as e:
+        res.cls["verdict"] = "inconclusive"
+        res.cls["reasons"].append("MIR translation failed (the function's shape changed?): %r" % (e,))
+    res.wall_s = time.time() - t0
+    return res
